@@ -4,6 +4,17 @@ mod verif_c10_sent_state {
     use super::*;
     //@include ../_shared/kani_stubs.rs
 
+    // `tracing::trace!` expands to a callsite registration + thread-local dispatcher lookup that crashes the
+    // Kani compiler (intrinsics.rs:243, same crash as qevent::event!).  The three entry points of the
+    // expansion are stubbed: the event is treated as disabled (tracing has no effect on the journal).
+    fn stub_interest(_c: &'static tracing::callsite::DefaultCallsite) -> tracing::subscriber::Interest {
+        tracing::subscriber::Interest::never()
+    }
+    fn stub_is_enabled(_m: &tracing::Metadata<'static>, _i: tracing::subscriber::Interest) -> bool {
+        false
+    }
+    fn stub_dispatch<'a: 'a>(_m: &'static tracing::Metadata<'static>, _f: &'a tracing::field::ValueSet<'_>) {}
+
     fn any_state() -> SentPktState {
         let nframes: usize = kani::any();
         match kani::any::<u8>() % 4 {
@@ -124,6 +135,9 @@ mod verif_c10_sent_state {
     /// which records `resize` may drop from the front of the journal: never one still in flight (its frames
     /// could no longer be reported), always an acknowledged / skipped one.
     #[kani::proof]
+    #[kani::stub(tracing::callsite::DefaultCallsite::interest, stub_interest)]
+    #[kani::stub(tracing::__macro_support::__is_enabled, stub_is_enabled)]
+    #[kani::stub(tracing::Event::dispatch, stub_dispatch)]
     fn should_remain_after_contract() {
         let s = any_state();
         let pn: u64 = kani::any();
